@@ -313,6 +313,45 @@ def loop_starts_with_break(body):
     return scan(body)
 
 
+def loop_ends_with_yield_if(body):
+    """Some loop body ends in an if whose branches hold only actions, a yield among them: the way back to the top of the loop is lost
+    (open finding; a match behind the if inside the loop body, or the same if outside a loop, is fine)."""
+    def has_yield(st_):
+        if st_[0] == "yield":
+            return True
+        if st_[0] == "if":
+            return any(has_yield(x) for br in st_[1] for x in br[1]) or any(has_yield(x) for x in (st_[2] or ()))
+        return False
+
+    def scan(b):
+        for st_ in b:
+            k = st_[0]
+            subs = []
+            if k == "loop":
+                tail = []
+                for x in reversed(st_[2]):
+                    if not ir.is_action(x):
+                        break
+                    tail.append(x)
+                if any(x[0] == "if" and has_yield(x) for x in tail):
+                    return True
+                subs = [st_[2]]
+            elif k == "optional":
+                subs = [st_[1]]
+            elif k == "case":
+                subs = [x[2] for x in st_[2]]
+            elif k == "try":
+                subs = [st_[2], st_[3]]
+            elif k == "foreach":
+                subs = [st_[1]]
+            elif k == "if":
+                subs = [x[1] for x in st_[1]] + ([st_[2]] if st_[2] else [])
+            if any(scan(sb) for sb in subs if sb):
+                return True
+        return False
+    return scan(body)
+
+
 def outcome_lookahead_end(prog):
     """Can the program end by lookahead (its last consuming statement is open-ended / nullable)?"""
     s, _ = ir.analyse(prog.body)
@@ -360,6 +399,9 @@ def check_program(shard, prog, argv, max_len, choices_list=(), do_c=True):
                           % (word.hex(), d[1], outcome.events[-6:], outcome.terminal, tl.events[-6:], tl.terminal, src), dict(replay, input=word.hex()))
         if d and loop_starts_with_break(prog.body):
             raise Failure("c01:lazily-scheduled-break-swallows-the-byte-it-was-scheduled-on", "input %s: %s\nreading: events=%r terminal=%r\nmachine: events=%r terminal=%r\n%s"
+                          % (word.hex(), d[1], outcome.events[-6:], outcome.terminal, tl.events[-6:], tl.terminal, src), dict(replay, input=word.hex()))
+        if d and loop_ends_with_yield_if(prog.body):
+            raise Failure("c01:loop-body-ending-in-action-only-if-with-yield-is-cut-off", "input %s: %s\nreading: events=%r terminal=%r\nmachine: events=%r terminal=%r\n%s"
                           % (word.hex(), d[1], outcome.events[-6:], outcome.terminal, tl.events[-6:], tl.terminal, src), dict(replay, input=word.hex()))
         if d and interfering_pair(prog.body):
             raise Failure("c01:eager-nonstrict-action-interferes-with-open-append", "input %s: %s\nreading: events=%r terminal=%r\nmachine: events=%r terminal=%r\n%s"
@@ -467,6 +509,10 @@ def worker(job):
 
 
 KNOWN_PROGRAMS = {
+    "c01:loop-body-ending-in-action-only-if-with-yield-is-cut-off": ir.Program(
+        [("int", "n0", True, None, 0)], [], [], ["Y0"], [],
+        (("loop", None, (("match", ("lit", b"a", "str")), ("assign", "n0", ("bin", "+", ("var", "n0"), ("num", 1, "dec"))),
+                         ("if", ((("bin", "==", ("var", "n0"), ("num", 1, "dec")), (("yield", "Y0"),)),), None))),), ["-O1", "-fyield-support"]),
     "c01:lazily-scheduled-break-swallows-the-byte-it-was-scheduled-on": ir.Program(
         [("int", "n0", True, None, 0)], ["h0"], [], [], [],
         (("optional", (("match", ("lit", b"a", "str")),)),
